@@ -318,6 +318,16 @@ func c19Run(e *core.Env) {
 			}
 		}
 	}
+	// long runs of trailing zeros (around the 64-, 128- and 256-bit boundaries of the zero count and far beyond)
+	for _, t := range []int{46, 63, 64, 65, 66, 70, 100, 127, 128, 129, 130, 200, 255, 256, 257, 300, 1000} {
+		pt := ref.Pow10(t)
+		for _, m := range []int64{1, 7, 123, 999999999999999999} {
+			co := new(big.Int).Mul(big.NewInt(m), pt)
+			for _, ex := range []int32{-5, 0, -int32(t)} {
+				xs = append(xs, FinBig(co, ex, false), FinBig(co, ex, true))
+			}
+		}
+	}
 	for _, ex := range []int32{-2001, -2000, -8, -1, 0, 1, 6, 300} {
 		xs = append(xs, Fin(0, ex, false), Fin(0, ex, true))
 	}
@@ -326,6 +336,8 @@ func c19Run(e *core.Env) {
 	ctxs = append(ctxs, MkCtx(0, -100000, 100000, apd.RoundHalfUp, 0))
 	// exponent ranges that do not contain exponent 0 (MaxExponent < 0, MinExponent > 0): a zero still reduces to 0E+0
 	ctxs = append(ctxs, MkCtx(3, -9, -3, apd.RoundHalfEven, 0), MkCtx(2, -20, -1, apd.RoundUp, 0), MkCtx(5, 2, 9, apd.RoundHalfEven, 0))
+	// a precision that keeps hundreds of digits (the second strip of Context.Reduce must not be needed to finish the first)
+	ctxs = append(ctxs, MkCtx(400, -6143, 6144, apd.RoundHalfEven, 0))
 	for _, p := range []uint32{19, 20, 38, 39} {
 		// the coefficient kept by Context.Reduce crosses the 64- and 128-bit boundaries
 		ctxs = append(ctxs, MkCtx(p, -6143, 6144, apd.RoundHalfEven, 0), MkCtx(p, -6143, 6144, apd.RoundUp, 0))
@@ -397,12 +409,12 @@ func init() {
 		Rule:  "NumDigits on every integer of the dense range and on every bit-length / power-of-ten boundary (both signs) against the length of the decimal text; Decimal.Reduce and Context.Reduce on m*10^t for every m, t of the family x destination pre-states x contexts against value equality, no trailing zero, exact zero count; non-trivial = boundary value or an operand with trailing zeros / rounding",
 		Bounds: func(tier string) string {
 			if tier == "thorough" {
-				return "NumDigits: all |b| < 2^22; bit lengths 1..4096 (2^(n-1), 2^n-1, 10^k-1,10^k,10^k+1 inside); 10^k+-{0,1} for every k <= 20000 and k in {99999,100000}; Reduce: m*10^t, m < 1000 not divisible by 10 + m around 2^64/10^t, t = 0..45, 4 exponents, both signs, zeros of 8 exponents x 7 destination pre-states x (p in {1,2,3,5} x 11 ranges x 3 modes + precision 0 + p in {19,20,38,39} x 2 modes + 3 ranges without exponent 0)"
+				return "NumDigits: all |b| < 2^22; bit lengths 1..4096 (2^(n-1), 2^n-1, 10^k-1,10^k,10^k+1 inside); 10^k+-{0,1} for every k <= 20000 and k in {99999,100000}; Reduce: m*10^t, m < 1000 not divisible by 10 + m around 2^64/10^t, t = 0..45 and 17 longer runs up to 1000 zeros, 4 exponents, both signs, zeros of 8 exponents x 7 destination pre-states x (p in {1,2,3,5} x 11 ranges x 3 modes + precision 0 + p in {19,20,38,39} x 2 modes + 3 ranges without exponent 0)"
 			}
-			return "NumDigits: all |b| < 2^20; bit lengths 1..700; 10^k+-{0,1} for every k <= 6500 (21593 bits) and k = 20000; Reduce: every third m*10^t (m < 1000, t = 0..45) + 2^64/10^t edges x 7 destination pre-states x contexts (p in {1,2,3,5}, precision 0, p in {19,20,38,39})"
+			return "NumDigits: all |b| < 2^20; bit lengths 1..700; 10^k+-{0,1} for every k <= 6500 (21593 bits) and k = 20000; Reduce: every third m*10^t (m < 1000, t = 0..45; 17 longer runs up to 1000 zeros) + 2^64/10^t edges x 7 destination pre-states x contexts (p in {1,2,3,5}, precision 0, p in {19,20,38,39})"
 		},
-		Run:    c19Run,
-		Replay: c19Replay,
+		Run:         c19Run,
+		Replay:      c19Replay,
 		Assumptions: []string{"the removed-zero count of Context.Reduce is the number of trailing zeros of the operand's coefficient plus those of the coefficient left by rounding the stripped operand; for a zero operand the count is 0"},
 	})
 }
